@@ -306,7 +306,7 @@ func c01Stream(r *hx.Rand, tier string, n int, w *bufio.Writer) map[string]int {
 				v := claims[k].(int64)
 				var raw, kind string
 				switch {
-				case nmut == 0 && eff.maxIAT == 0 && k == "iat" && r.Chance(3):
+				case nmut == 0 && eff.maxIAT == 0 && k == "iat" && r.Chance(8):
 					// an instant in the last 62135596800 seconds of the int64 range (exactly representable as a double)
 					raw, kind = hx.Pick(r, "9223372036854774784", "9223372036800000000", "9.223372036854774784e18"), "int64-top"
 				case r.Chance(75):
